@@ -546,7 +546,9 @@ func (s *sim) applyCall(in *inst, ents []entry, replay bool) {
 		for i := e.from; i < e.to; i++ {
 			r := s.log[i]
 			nreq++
-			if !isReplaying && s.t.Bool(in.cfg.leaderPm) {
+			// (drawn unconditionally: the ablation re-run must consume the tape identically)
+			lead := s.t.Bool(in.cfg.leaderPm)
+			if !isReplaying && lead {
 				in.w.Register(r.id)
 			}
 			if isReplaying {
